@@ -33,6 +33,8 @@ UNIVERSE = {
     'pkga.v1': {}, 'pkga.v1.models': {'funcs': ['build'], 'classes': {}},
     'pkga.v2': {}, 'pkga.v2.models': {'funcs': ['build'], 'classes': {}},
     'pkga.deep': {}, 'pkga.deep.mod': {'funcs': ['f'], 'classes': {}},
+    'Zmod': {'funcs': ['zq'], 'classes': {}},         # an upper-case module name sorts before '__gin__'
+    'Pkg': {}, 'Pkg.dynamic_registration': {'funcs': ['pf'], 'classes': {}},     # binds the NAME dynamic_registration
     'zeta': {'funcs': ['zf'], 'classes': {}}, 'alpha': {}, 'alpha.tools': {'funcs': ['af'], 'classes': {}},
     'beta': {}, 'beta.tools': {'funcs': ['bf'], 'classes': {}},
 }
@@ -119,7 +121,7 @@ class World:
           attrs.append('(%s, %s)' % (C.cstr(sub.rpartition('.')[2]), mod(sub)))
       return '(PMod %s)' % (C.clist(attrs) if attrs else '[]')
     tops = [n for n in sorted(UNIVERSE) if '.' not in n]
-    return C.clist(['(%s, %s)' % (C.cstr(n), mod(n)) for n in tops])
+    return C.clist(['(%s, %s)' % (C.cstr(n), mod(n)) for n in tops] + ['("gin", PMod [("config", PMod [])])'])
 
 
 DYN = ['import', '__gin__.dynamic_registration', True, None]
@@ -131,11 +133,14 @@ IMPORTS = [
     ['import', 'pkga', False, None], ['import', 'nosuch.mod', False, None], ['import', 'top', False, 'gin'],
     ['import', 'pkgc.util', True, None], ['import', 'top', False, 'util2'], ['import', 'pkgc.util', False, 'util3'],
     ['import', 'pkga.v1.models', False, None], ['import', 'pkga.v2.models', True, None], ['import', 'pkga.v2.models', False, 'm2'],
+    ['import', 'Zmod', False, None], ['import', 'Zmod', False, 'zm'],
+    ['import', 'Pkg.dynamic_registration', True, None], ['import', 'Pkg.dynamic_registration', True, 'pdr'],
 ]
+GIN_IMPORT = ['import', 'gin.config', False, None]     # legal in a file WITHOUT the feature; binds the name gin
 LEAVES = {'pkga.util': ['f', 'g', 'C', 'C.meth', 'C.Inner', 'nope'], 'pkgb.util': ['f', 'C', 'C.meth', 'C.meth2'], 'top': ['g', 'h', 'tg', 'g', 'tg'],
           # '^...': an absolute dotted name through the package root, reachable only through a plain 'import a.b.c'
           'pkga.v1.models': ['build', '^pkga.v2.models.build', '^pkga.v1.models.build'], 'pkga.v2.models': ['build'],
-          'pkgc.util': ['f'],
+          'pkgc.util': ['f'], 'Zmod': ['zq'], 'Pkg.dynamic_registration': ['pf'],
           'pkga.deep.mod': ['f'], 'pkga': ['util.f', 'util.C', 'deep.mod.f']}
 
 
@@ -194,6 +199,10 @@ class DynEngine(Engine):
         {'pre': ['zeta.zf', 'beta.tools.bf', 'alpha.tools.af'],
          'calls': [[DYN, a1, ['bind', '', 'pkga.util.f', 'x', 1]], [['bind', '', 'zeta.zf', 'x', 1]], [['bind', '', 'beta.tools.bf', 'x', 2]],
                    [['bind', 's1', 'alpha.tools.af', 'x', 3]]]},
+        [[DYN, ['import', 'Zmod', False, None], ['bind', '', 'Zmod.zq', 'x', 1]]],
+        [[GIN_IMPORT], [DYN, ['import', 'top', False, None], ['bind', '', 'top.g', 'x', 1]]],
+        [[DYN, ['import', 'Pkg.dynamic_registration', True, 'pdr'], ['bind', '', 'pdr.pf', 'x', 1]],
+         [DYN, ['import', 'Pkg.dynamic_registration', True, None]]],
         {'pre': ['zeta.zf@pkga.util.C.meth'], 'calls': [[DYN, a1, ['bind', '', 'pkga.util.C.meth', 'x', 1]], [DYN, a1, ['bind', '', 'pkga.util.f', 'x', 1]]]},
         {'pre': ['zeta.zf@pkga.util.C'], 'calls': [[DYN, a1, ['bind', '', 'pkga.util.C', 'x', 1]]]},
         {'pre': ['zeta.zf@pkga.util.f'], 'calls': [[DYN, a2, ['bind', '', 'u.f', 'x', 1]], [DYN, a2, ['bind', '', 'u.g', 'x', 1]]]},
@@ -239,6 +248,8 @@ class DynEngine(Engine):
         else:
           stmts.append(['block', scope, sel])
       calls.append(stmts)
+    if rng.random() < 0.1:
+      calls.insert(rng.randint(0, len(calls)), [GIN_IMPORT])      # a file without the feature may import gin.*
     if rng.random() < 0.08:
       tgt = rng.choice(['pkga.util.C.meth', 'pkga.util.f', 'pkga.util.C', 'pkgb.util.C.meth2', 'pkga.util.C.Inner', 'top.g'])
       return {'pre': [rng.choice(PRE) + '@' + tgt], 'calls': calls}
@@ -342,7 +353,11 @@ class DynEngine(Engine):
       all_ok = not any(isinstance(o, T) for o in obs[:len(case)])
       text = ''
       if all_ok:
-        text = gin.config_str()
+        try:
+          text = gin.config_str()
+        except Exception as e:  # pylint: disable=broad-except
+          text = ''
+          fails.append(('config-str-raised', '%s: %s' % (type(e).__name__, str(e)[:200])))
         lines = text.split('\n')
         imps = []
         for l in lines:
@@ -425,6 +440,9 @@ class DynEngine(Engine):
             elif st[1].startswith('__gin__'):
               valid = False
             else:
+              if st[1] == 'gin.config' and not dyn:
+                seen_import = True
+                continue             # a real module; binds nothing in a file without the feature
               if st[1] not in UNIVERSE or findings._bound(st) == 'gin':
                 valid = False
               table[findings._bound(st)] = st
